@@ -451,11 +451,11 @@ timeline) exactly when the condition is true, and falls through when it is false
 theorem cD_ok (lib : Placed p B) (Γ : Gam) (env : Env) (F D : Nat) :
     ∀ (b : Core.B) (pc o : Nat) (m : Mem),
       isD b = true →
-      PlacedAt p pc (cD (cxOf p ck B dA) Γ pc o b) →
-      pc + (cD (cxOf p ck B dA) Γ pc o b).length ≤ B →
+      PlacedAt p pc (cD (cxOf p ck B dA) false Γ pc o b) →
+      pc + (cD (cxOf p ck B dA) false Γ pc o b).length ≤ B →
       Fr p m F D → VarsOK p.w Γ env m F o → boundB (Γ.map Prod.fst) b = true → pkB p.w o b ≤ D → p.w ≤ o →
       (evalB (256 ^ p.w) (8 * p.w) env b = some false →
-        ∃ m', Reach (sphinx p) ⟨pc, m⟩ [] ⟨pc + (cD (cxOf p ck B dA) Γ pc o b).length, m'⟩ ∧ Keep p.w m m' (F - o)) ∧
+        ∃ m', Reach (sphinx p) ⟨pc, m⟩ [] ⟨pc + (cD (cxOf p ck B dA) false Γ pc o b).length, m'⟩ ∧ Keep p.w m m' (F - o)) ∧
       (evalB (256 ^ p.w) (8 * p.w) env b = some true → Halts (sphinx p) ⟨pc, m⟩) ∧
       (evalB (256 ^ p.w) (8 * p.w) env b = none → ck = true →
         ∃ m', Reach (sphinx p) ⟨pc, m⟩ [] ⟨B + off_division_by_zero, m'⟩) := by
@@ -492,7 +492,7 @@ theorem cD_ok (lib : Placed p B) (Γ : Gam) (env : Env) (F D : Nat) :
         | false =>
           simp only [hv, Option.bind_some, Bool.false_eq_true, if_false] at hf
           obtain ⟨m1, r1, k1⟩ := h1.1 hv
-          have h2 := ihr (pc + (cD (cxOf p ck B dA) Γ pc o l).length) o m1 hd.2 hpl2 (by omega) (fr.keep k1)
+          have h2 := ihr (pc + (cD (cxOf p ck B dA) false Γ pc o l).length) o m1 hd.2 hpl2 (by omega) (fr.keep k1)
             (hvars.keep k1 (Nat.le_refl _) (Nat.le_refl _)) hb.2 (by omega) ho
           obtain ⟨m2, r2, k2⟩ := h2.1 hf
           exact ⟨m2, by simpa [Nat.add_assoc] using r1.trans r2, k1.trans' k2⟩
@@ -505,7 +505,7 @@ theorem cD_ok (lib : Placed p B) (Γ : Gam) (env : Env) (F D : Nat) :
         | false =>
           simp only [hv, Option.bind_some, Bool.false_eq_true, if_false] at ht
           obtain ⟨m1, r1, k1⟩ := h1.1 hv
-          have h2 := ihr (pc + (cD (cxOf p ck B dA) Γ pc o l).length) o m1 hd.2 hpl2 (by omega) (fr.keep k1)
+          have h2 := ihr (pc + (cD (cxOf p ck B dA) false Γ pc o l).length) o m1 hd.2 hpl2 (by omega) (fr.keep k1)
             (hvars.keep k1 (Nat.le_refl _) (Nat.le_refl _)) hb.2 (by omega) ho
           exact r1.1 (h2.2.1 ht)
     · simp only [evalB, Option.bind_eq_bind] at hn
@@ -517,7 +517,7 @@ theorem cD_ok (lib : Placed p B) (Γ : Gam) (env : Env) (F D : Nat) :
         | false =>
           simp only [hv, Option.bind_some, Bool.false_eq_true, if_false] at hn
           obtain ⟨m1, r1, k1⟩ := h1.1 hv
-          have h2 := ihr (pc + (cD (cxOf p ck B dA) Γ pc o l).length) o m1 hd.2 hpl2 (by omega) (fr.keep k1)
+          have h2 := ihr (pc + (cD (cxOf p ck B dA) false Γ pc o l).length) o m1 hd.2 hpl2 (by omega) (fr.keep k1)
             (hvars.keep k1 (Nat.le_refl _) (Nat.le_refl _)) hb.2 (by omega) ho
           obtain ⟨m2, r2⟩ := h2.2.2 hn hck
           exact ⟨m2, by simpa using r1.trans r2⟩
@@ -530,9 +530,9 @@ theorem cD_ok (lib : Placed p B) (Γ : Gam) (env : Env) (F D : Nat) :
       with ⟨c2, vr0, p2⟩
     rcases hg2 : getOp (cxOf p ck B dA) (cxOf p ck B dA).r1 vr0 with ⟨c2', vr⟩
     rcases hg3 : getOp (cxOf p ck B dA) (cxOf p ck B dA).r0 vl with ⟨c3, vl'⟩
-    have hcode : cD (cxOf p ck B dA) Γ pc o (.cmp op l r)
+    have hcode : cD (cxOf p ck B dA) false Γ pc o (.cmp op l r)
         = (c1 ++ c2 ++ c2' ++ c3) ++ [.hcond (cmpHalt op) (vl'.arg (cxOf p ck B dA)) (vr.arg (cxOf p ck B dA))] := by
-      simp only [cD, hcl, hcr, hg2, hg3]
+      simp only [cD, hcl, hcr, hg2, hg3, Bool.false_eq_true, if_false, List.append_nil]
     rw [hcode] at hpl hB ⊢
     generalize hpre : c1 ++ c2 ++ c2' ++ c3 = pre at *
     obtain ⟨hplP, hplH⟩ := hpl.append
@@ -576,6 +576,233 @@ theorem cD_ok (lib : Placed p B) (Γ : Gam) (env : Env) (F D : Nat) :
       rw [ht] at s
       simp only [if_true] at s
       exact r4.1 (Halts.halt (sys := sphinx p) s)
+    · simp only [evalB, Option.bind_eq_bind] at hn
+      apply hops.2 _ hck
+      cases hea : evalE (256 ^ p.w) (8 * p.w) env l with
+      | none => exact Or.inl rfl
+      | some a =>
+        cases heb : evalE (256 ^ p.w) (8 * p.w) env r with
+        | none => exact Or.inr ⟨a, rfl, rfl⟩
+        | some b => simp [hea, heb] at hn
+
+
+/-- what is known about the word `defeat` inside the body of a `try/stop` -/
+def DWord (p : Prog) (dA v : Nat) (m : Mem) (F : Nat) : Prop :=
+  F ≤ dA ∧ dA + p.w ≤ m.size ∧ dA + p.w < 256 ^ p.w ∧ m.readLE dA p.w = v ∧ v < 256 ^ p.w
+
+theorem DWord.keep {v : Nat} {m m' : Mem} {F a : Nat} (h : DWord p dA v m F) (k : Keep p.w m m' a) (ha : a ≤ F) : DWord p dA v m' F := by
+  obtain ⟨h1, h2, h3, h4, h5⟩ := h
+  exact ⟨h1, by rw [k.size]; exact h2, h3, by rw [k.read _ _ (by omega)]; exact h4, h5⟩
+
+/-- `!truth_is_defeat(c)` where the effective defeat is the word `defeat`: every conditional halt is
+preceded by `j [defeat]`, which is taken exactly when the halt would fire.  That a jump over a halt that
+does *not* fire is not taken needs to know the future: either the handler address is a `halt` (the world in
+which a `try/stop` asks whether its body would be defeated), or neither way out of this code halts. -/
+theorem cD_ok_vd (lib : Placed p B) (Γ : Gam) (env : Env) (F D v : Nat) :
+    ∀ (b : Core.B) (pc o : Nat) (m : Mem),
+      isD b = true →
+      PlacedAt p pc (cD (cxOf p ck B dA) true Γ pc o b) →
+      pc + (cD (cxOf p ck B dA) true Γ pc o b).length ≤ B →
+      Fr p m F D → VarsOK p.w Γ env m F o → boundB (Γ.map Prod.fst) b = true → pkB p.w o b ≤ D → p.w ≤ o →
+      DWord p dA v m F →
+      ((∀ m', Halts (sphinx p) ⟨v, m'⟩) ∨
+        ∀ m', Keep p.w m m' (F - o) →
+          (evalB (256 ^ p.w) (8 * p.w) env b = some false → ¬ Halts (sphinx p) ⟨pc + (cD (cxOf p ck B dA) true Γ pc o b).length, m'⟩) ∧
+          (evalB (256 ^ p.w) (8 * p.w) env b = some true → ¬ Halts (sphinx p) ⟨v, m'⟩)) →
+      (evalB (256 ^ p.w) (8 * p.w) env b = some false →
+        ∃ m', Reach (sphinx p) ⟨pc, m⟩ [] ⟨pc + (cD (cxOf p ck B dA) true Γ pc o b).length, m'⟩ ∧ Keep p.w m m' (F - o)) ∧
+      (evalB (256 ^ p.w) (8 * p.w) env b = some true →
+        ∃ m', Reach (sphinx p) ⟨pc, m⟩ [] ⟨v, m'⟩ ∧ Keep p.w m m' (F - o)) ∧
+      (evalB (256 ^ p.w) (8 * p.w) env b = none → ck = true →
+        ∃ m', Reach (sphinx p) ⟨pc, m⟩ [] ⟨B + off_division_by_zero, m'⟩) := by
+  have hw := lib.hw
+  intro b
+  induction b with
+  | lit x =>
+    intro pc o m _ hpl hB fr _ _ _ _ hdw _
+    obtain ⟨h1, h2, h3, h4, h5⟩ := hdw
+    have hroom := fr.room
+    cases x with
+    | true =>
+      refine ⟨fun h => by simp [evalB] at h, fun _ => ?_, fun h => by simp [evalB] at h⟩
+      simp only [cD, if_true] at hpl
+      have c0 := hpl 0 (by simp); have c1 := hpl 1 (by simp)
+      simp only [List.getElem_cons_succ, List.getElem_cons_zero, Nat.add_zero] at c0 c1
+      have s0 := step_j (m := m) c0 (ev_st (by unfold Prog.M; omega) (by omega))
+      rw [h4] at s0
+      exact ⟨m, Reach.jump_taken (sys := sphinx p) s0 (step_halt (m := m) c1), Keep.refl _ _ _⟩
+    | false =>
+      refine ⟨fun _ => ⟨m, by simpa [cD] using Reach.refl, Keep.refl _ _ _⟩, fun h => by simp [evalB] at h,
+        fun h => by simp [evalB] at h⟩
+  | not b _ => intro pc o m hd; simp [isD] at hd
+  | and l r _ _ => intro pc o m hd; simp [isD] at hd
+  | or l r ihl ihr =>
+    intro pc o m hd hpl hB fr hvars hb hpk ho hdw hfut
+    simp only [isD, Bool.and_eq_true] at hd
+    simp only [boundB, Bool.and_eq_true] at hb
+    simp only [pkB] at hpk
+    simp only [cD] at hpl hB hfut ⊢
+    obtain ⟨hpl1, hpl2⟩ := hpl.append
+    rw [List.length_append] at hB hfut ⊢
+    rw [← Nat.add_assoc] at hfut
+    have hroom := fr.room
+    -- the second disjunct, from any state reachable at its start
+    have runR : ∀ m1, Keep p.w m m1 (F - o) →
+        ((∀ m', Halts (sphinx p) ⟨v, m'⟩) ∨
+          ∀ m', Keep p.w m1 m' (F - o) →
+            (evalB (256 ^ p.w) (8 * p.w) env r = some false → ¬ Halts (sphinx p)
+              ⟨pc + (cD (cxOf p ck B dA) true Γ pc o l).length + (cD (cxOf p ck B dA) true Γ (pc + (cD (cxOf p ck B dA) true Γ pc o l).length) o r).length, m'⟩) ∧
+            (evalB (256 ^ p.w) (8 * p.w) env r = some true → ¬ Halts (sphinx p) ⟨v, m'⟩)) → _ :=
+      fun m1 k1 hf => ihr (pc + (cD (cxOf p ck B dA) true Γ pc o l).length) o m1 hd.2 hpl2 (by omega) (fr.keep k1)
+        (hvars.keep k1 (Nat.le_refl _) (Nat.le_refl _)) hb.2 (by omega) ho (hdw.keep k1 (by omega)) hf
+    -- the future of the second disjunct, when the first is false
+    have futR : evalB (256 ^ p.w) (8 * p.w) env l = some false → ∀ m1, Keep p.w m m1 (F - o) →
+        ((∀ m', Halts (sphinx p) ⟨v, m'⟩) ∨
+          ∀ m', Keep p.w m1 m' (F - o) →
+            (evalB (256 ^ p.w) (8 * p.w) env r = some false → ¬ Halts (sphinx p)
+              ⟨pc + (cD (cxOf p ck B dA) true Γ pc o l).length + (cD (cxOf p ck B dA) true Γ (pc + (cD (cxOf p ck B dA) true Γ pc o l).length) o r).length, m'⟩) ∧
+            (evalB (256 ^ p.w) (8 * p.w) env r = some true → ¬ Halts (sphinx p) ⟨v, m'⟩)) := by
+      intro hl m1 k1
+      rcases hfut with h | h
+      · exact Or.inl h
+      · right
+        intro m' k'
+        have := h m' (k1.trans' k')
+        refine ⟨fun hr => this.1 (by simp [evalB, hl, hr]), fun hr => this.2 (by simp [evalB, hl, hr])⟩
+    -- the future of the first disjunct
+    have futL : (evalB (256 ^ p.w) (8 * p.w) env l = some false →
+          evalB (256 ^ p.w) (8 * p.w) env r = none → ck = true) →
+        ((∀ m', Halts (sphinx p) ⟨v, m'⟩) ∨
+          ∀ m', Keep p.w m m' (F - o) →
+            (evalB (256 ^ p.w) (8 * p.w) env l = some false → ¬ Halts (sphinx p) ⟨pc + (cD (cxOf p ck B dA) true Γ pc o l).length, m'⟩) ∧
+            (evalB (256 ^ p.w) (8 * p.w) env l = some true → ¬ Halts (sphinx p) ⟨v, m'⟩)) := by
+      intro hnone
+      rcases hfut with h | h
+      · exact Or.inl h
+      · right
+        intro m1 k1
+        refine ⟨fun hl => ?_, fun hl => (h m1 k1).2 (by simp [evalB, hl])⟩
+        have h2 := runR m1 k1 (futR hl m1 k1)
+        cases hr : evalB (256 ^ p.w) (8 * p.w) env r with
+        | none =>
+          obtain ⟨m2, r2⟩ := h2.2.2 hr (hnone hl hr)
+          exact (r2.exec (terminal_never_halts lib m2).2.2.2.1).2
+        | some x =>
+          cases x with
+          | false =>
+            obtain ⟨m2, r2, k2⟩ := h2.1 hr
+            exact (r2.exec ((h m2 (k1.trans' k2)).1 (by simp [evalB, hl, hr]))).2
+          | true =>
+            obtain ⟨m2, r2, k2⟩ := h2.2.1 hr
+            exact (r2.exec ((h m2 (k1.trans' k2)).2 (by simp [evalB, hl, hr]))).2
+    refine ⟨fun hf => ?_, fun ht => ?_, fun hn hck => ?_⟩
+    · simp only [evalB, Option.bind_eq_bind] at hf
+      cases hv : evalB (256 ^ p.w) (8 * p.w) env l with
+      | none => simp [hv] at hf
+      | some x =>
+        cases x with
+        | true => simp [hv] at hf
+        | false =>
+          simp only [hv, Option.bind_some, Bool.false_eq_true, if_false] at hf
+          have h1 := ihl pc o m hd.1 hpl1 (by omega) fr hvars hb.1 (by omega) ho hdw (futL (fun _ hr => by rw [hr] at hf; cases hf))
+          obtain ⟨m1, r1, k1⟩ := h1.1 hv
+          obtain ⟨m2, r2, k2⟩ := (runR m1 k1 (futR hv m1 k1)).1 hf
+          exact ⟨m2, by simpa [Nat.add_assoc] using r1.trans r2, k1.trans' k2⟩
+    · simp only [evalB, Option.bind_eq_bind] at ht
+      cases hv : evalB (256 ^ p.w) (8 * p.w) env l with
+      | none => simp [hv] at ht
+      | some x =>
+        cases x with
+        | true =>
+          exact (ihl pc o m hd.1 hpl1 (by omega) fr hvars hb.1 (by omega) ho hdw (futL (fun hl => by rw [hv] at hl; cases hl))).2.1 hv
+        | false =>
+          simp only [hv, Option.bind_some, Bool.false_eq_true, if_false] at ht
+          have h1 := ihl pc o m hd.1 hpl1 (by omega) fr hvars hb.1 (by omega) ho hdw (futL (fun _ hr => by rw [hr] at ht; cases ht))
+          obtain ⟨m1, r1, k1⟩ := h1.1 hv
+          obtain ⟨m2, r2, k2⟩ := (runR m1 k1 (futR hv m1 k1)).2.1 ht
+          exact ⟨m2, by simpa using r1.trans r2, k1.trans' k2⟩
+    · simp only [evalB, Option.bind_eq_bind] at hn
+      cases hv : evalB (256 ^ p.w) (8 * p.w) env l with
+      | none => exact (ihl pc o m hd.1 hpl1 (by omega) fr hvars hb.1 (by omega) ho hdw (futL (fun hl => by rw [hv] at hl; cases hl))).2.2 hv hck
+      | some x =>
+        cases x with
+        | true => simp [hv] at hn
+        | false =>
+          simp only [hv, Option.bind_some, Bool.false_eq_true, if_false] at hn
+          have h1 := ihl pc o m hd.1 hpl1 (by omega) fr hvars hb.1 (by omega) ho hdw (futL (fun _ _ => hck))
+          obtain ⟨m1, r1, k1⟩ := h1.1 hv
+          obtain ⟨m2, r2⟩ := (runR m1 k1 (futR hv m1 k1)).2.2 hn hck
+          exact ⟨m2, by simpa using r1.trans r2⟩
+  | cmp op l r =>
+    intro pc o m _ hpl hB fr hvars hb hpk ho hdw hfut
+    simp only [boundB, Bool.and_eq_true] at hb
+    simp only [pkB] at hpk
+    have hroom := fr.room
+    rcases hcl : cE (cxOf p ck B dA) Γ pc o (cxOf p ck B dA).r0 l (!isSafe r) with ⟨c1, vl, p1⟩
+    rcases hcr : cE (cxOf p ck B dA) Γ (pc + c1.length) (if p1 = true then o + (cxOf p ck B dA).w else o) (cxOf p ck B dA).r1 r false
+      with ⟨c2, vr0, p2⟩
+    rcases hg2 : getOp (cxOf p ck B dA) (cxOf p ck B dA).r1 vr0 with ⟨c2', vr⟩
+    rcases hg3 : getOp (cxOf p ck B dA) (cxOf p ck B dA).r0 vl with ⟨c3, vl'⟩
+    have hcode : cD (cxOf p ck B dA) true Γ pc o (.cmp op l r)
+        = (c1 ++ c2 ++ c2' ++ c3) ++ [.j (.st dA), .hcond (cmpHalt op) (vl'.arg (cxOf p ck B dA)) (vr.arg (cxOf p ck B dA))] := by
+      simp only [cD, hcl, hcr, hg2, hg3, if_true, List.append_assoc, List.cons_append, List.nil_append]
+    rw [hcode] at hpl hB hfut ⊢
+    generalize hpre : c1 ++ c2 ++ c2' ++ c3 = pre at *
+    obtain ⟨hplP, hplH⟩ := hpl.append
+    have cj := hplH 0 (by simp); have ch := hplH 1 (by simp)
+    simp only [List.getElem_cons_succ, List.getElem_cons_zero, Nat.add_zero] at cj ch
+    simp only [List.length_append, List.length_cons, List.length_nil] at hB hfut ⊢
+    have hops := operands_ok (ck := ck) (dA := dA) lib Γ env F D l r pc o m c1 vl p1 hcl c2 vr0 p2 hcr c2' vr hg2 c3 vl' hg3
+      (by rw [hpre]; exact hplP) (by rw [hpre]; omega) fr hvars hb.1 hb.2 (by omega) (by omega) ho
+    rw [hpre] at hops
+    have key : ∀ a b, evalE (256 ^ p.w) (8 * p.w) env l = some a → evalE (256 ^ p.w) (8 * p.w) env r = some b →
+        ∃ m4, Reach (sphinx p) ⟨pc, m⟩ [] ⟨pc + pre.length, m4⟩ ∧ Keep p.w m m4 (F - o) ∧
+          Sphinx.step p ⟨pc + pre.length, m4⟩ = .jump ⟨pc + pre.length + 1, m4⟩ ⟨v, m4⟩ ∧
+          Sphinx.step p ⟨pc + pre.length + 1, m4⟩ =
+            if haltCond (256 ^ p.w) (cmpHalt op) a b then .halt else .next ⟨pc + pre.length + 1 + 1, m4⟩ none := by
+      intro a b hea heb
+      obtain ⟨m4, r4, k4, hargl, hargr, hvl, hvr⟩ := hops.1 a b hea heb
+      have fr4 := fr.keep k4
+      obtain ⟨h1, h2, h3, h4, h5⟩ := hdw.keep k4 (by omega)
+      have sj := step_j (m := m4) cj (ev_st (by unfold Prog.M; omega) (by omega))
+      rw [h4] at sj
+      have s := step_hcond (m := m4) ch (ev_arg_any hw fr4 _ vl' hargl) (ev_arg_any hw fr4 _ vr hargr)
+      rw [hvl, hvr] at s
+      unfold Prog.M at s
+      exact ⟨m4, r4, k4, sj, s⟩
+    refine ⟨fun hf => ?_, fun ht => ?_, fun hn hck => ?_⟩
+    · simp only [evalB, Option.bind_eq_bind] at hf
+      cases hea : evalE (256 ^ p.w) (8 * p.w) env l with
+      | none => simp [hea] at hf
+      | some a =>
+      cases heb : evalE (256 ^ p.w) (8 * p.w) env r with
+      | none => simp [hea, heb] at hf
+      | some b =>
+      have hfb : evalB (256 ^ p.w) (8 * p.w) env (.cmp op l r) = some false := by
+        simpa [evalB, hea, heb] using hf
+      simp only [hea, heb, Option.bind_some, Option.pure_def, Option.some.injEq] at hf
+      obtain ⟨m4, r4, k4, sj, s⟩ := key a b hea heb
+      rw [hf] at s
+      simp only [Bool.false_eq_true, if_false] at s
+      have rn := Reach.of_next (sys := sphinx p) s
+      have jn : Reach (sphinx p) ⟨pc + pre.length, m4⟩ [] ⟨pc + pre.length + 1, m4⟩ := by
+        refine Reach.jump_not_taken (sys := sphinx p) sj (fun hh => ?_)
+        rcases hfut with h | h
+        · exact h m4
+        · exact absurd hh (rn.exec (by have := (h m4 k4).1 hfb; simpa [Nat.add_assoc] using this)).2
+      exact ⟨m4, by simpa [evl, Nat.add_assoc] using r4.trans (jn.trans rn), k4⟩
+    · simp only [evalB, Option.bind_eq_bind] at ht
+      cases hea : evalE (256 ^ p.w) (8 * p.w) env l with
+      | none => simp [hea] at ht
+      | some a =>
+      cases heb : evalE (256 ^ p.w) (8 * p.w) env r with
+      | none => simp [hea, heb] at ht
+      | some b =>
+      simp only [hea, heb, Option.bind_some, Option.pure_def, Option.some.injEq] at ht
+      obtain ⟨m4, r4, k4, sj, s⟩ := key a b hea heb
+      rw [ht] at s
+      simp only [if_true] at s
+      exact ⟨m4, by simpa using r4.trans (Reach.jump_taken (sys := sphinx p) sj s), k4⟩
     · simp only [evalB, Option.bind_eq_bind] at hn
       apply hops.2 _ hck
       cases hea : evalE (256 ^ p.w) (8 * p.w) env l with
